@@ -1090,10 +1090,27 @@ def r10_6(prog, chk):
             chk.analysed(f)
             got = _closure(eff, name, "resets")
             ok = memo <= got
-            chk.ob("R10.6", "%s: rebinding %s resets the memo %s" % (name, ", ".join(sorted(touched)), ", ".join(sorted(memo))), f.loc(), ok,
-                   detail=None if ok else "the method attaches new data bases but keeps the memorised neighbourhood: the next search for the "
-                   "same target rank returns the neighbours computed for the previous data base",
-                   key="R10.6|%s|%s" % (name, "+".join(sorted(touched))))
+            why = "the method attaches new data bases but keeps the memorised neighbourhood: the next search for the same target rank returns the " \
+                  "neighbours computed for the previous data base"
+            # ... and on EVERY path: once the data bases are rebound, no path reaches the exit without the reset (the content of a data base
+            # may have changed although its address has not: `if (changed) setIsChanged();` keeps the memo of the old content)
+            if ok and f.cfg is not None:
+                from e1_paths import CFG
+                g = CFG(f)
+                binds = [x for x in f.walk() if x["k"] == "Assign" and x.get("op") == "=" and x["c"][0] is not None and x["c"][0]["k"] == "MemberExpr" and
+                         x["c"][0].get("n") in touched and g.pos_of(x) is not None]
+                resetters = {nm_ for nm_, e_ in eff.items() if memo <= _closure(eff, nm_, "resets")}
+                is_reset = lambda y: y["k"] == "MCall" and (y.get("callee") or "") in resetters or \
+                    (y["k"] == "MCall" and (y.get("callee") or "").split("::")[-1] == "clear" and call_obj(y) is not None and call_obj(y).get("n") in memo)
+                for b_ in binds:
+                    w = g.exit_without(b_, is_reset)
+                    if w is not None:
+                        ok = False
+                        why = "a path from `%s` reaches the end of the method without resetting the memo (%s): the memorised neighbourhood of the previous " \
+                              "content is returned for the same target rank" % (show(b_)[:30], g.describe(w)[:160])
+                        break
+            chk.ob("R10.6", "%s: rebinding %s resets the memo %s (on every path)" % (name, ", ".join(sorted(touched)), ", ".join(sorted(memo))), f.loc(), ok,
+                   detail=None if ok else why, key="R10.6|%s|%s" % (name, "+".join(sorted(touched))))
     chk.floor("R10.6", n, 1)
 
 
